@@ -365,6 +365,10 @@ func init() {
 		return finish(genC16Maps(lvlOf(tier)), "C16", OMon|OLin, false)
 	}
 	for _, p := range []string{"C05", "C07", "C08", "C13", "C16"} {
-		checks[p] = func(rc *runCtx) int { return runE1Check(rc, e1Assumptions, nil) }
+		assume := e1Assumptions
+		if p == "C08" {
+			assume = append(append([]string{}, e1Assumptions...), e2Assumptions...) // C08 also runs a sequence search
+		}
+		checks[p] = func(rc *runCtx) int { return runE1Check(rc, assume, nil) }
 	}
 }
